@@ -23,8 +23,12 @@ def search(ctx: Ctx) -> Report:
     from .. import tracecheck
     from ..core import Violation
     rep = Report()
+    from lerax.env.classic_control import ContinuousMountainCar, MountainCar
     envs = [(n, mk) for (n, kw, mk) in be.classic_envs(ctx) if not kw and n != "CartPole"]
-    cases = [dict(env=n, horizon=ctx.pick(256, 512), pop=ctx.pick(48, 128), gens=ctx.pick(6, 16), seed=ctx.rng.randrange(2 ** 31)) for n, _ in envs]
+    # with the default goal the mountain cars terminate before the right wall matters: an unreachable goal velocity keeps them running
+    envs += [("MountainCar", lambda: MountainCar(goal_velocity=0.1)), ("ContinuousMountainCar", lambda: ContinuousMountainCar(goal_velocity=0.1))]
+    cases = [dict(env=n, variant=(i >= len(envs) - 2), horizon=ctx.pick(256, 512), pop=ctx.pick(48, 128), gens=ctx.pick(6, 16),
+                  seed=ctx.rng.randrange(2 ** 31)) for i, (n, _) in enumerate(envs)]
     traces = [be.extremal_search(c["env"], mk(), c["horizon"], c["pop"], c["gens"], c["seed"]) for c, (_, mk) in zip(cases, envs)]
     v = tracecheck.validate(ctx, be.SPEC, traces, "c02_search")
     rep.states += v.distinct
@@ -60,6 +64,9 @@ def replay(ctx: Ctx, driver: str, case: dict) -> Report:
         from ..core import Violation
         rep = Report()
         mk = next(m for (n, kw, m) in be.classic_envs(ctx) if n == case["env"] and not kw)
+        if case.get("variant"):
+            from lerax.env import classic_control as cc
+            mk = lambda: getattr(cc, case["env"])(goal_velocity=0.1)
         tr = be.extremal_search(case["env"], mk(), case["horizon"], case["pop"], case["gens"], case["seed"])
         v = tracecheck.validate(ctx, be.SPEC, [tr], "replay")
         for i, (l, clauses) in v.rejected.items():
